@@ -178,6 +178,14 @@ func init() {
 			return done(konst(n))
 		},
 		"Jitter": func(e *Exec, fr *Frame, fn *ssa.Function, a []Value) (Value, int) { return done(nil) },
+		"HBRelease": func(e *Exec, fr *Frame, fn *ssa.Function, a []Value) (Value, int) {
+			e.hbRelease(hbKey(a[0]))
+			return done(nil)
+		},
+		"HBAcquire": func(e *Exec, fr *Frame, fn *ssa.Function, a []Value) (Value, int) {
+			e.hbAcquire(hbKey(a[0]))
+			return done(nil)
+		},
 		"Yield": func(e *Exec, fr *Frame, fn *ssa.Function, a []Value) (Value, int) {
 			// let every other runnable goroutine run until it blocks
 			g := e.cur
@@ -475,6 +483,7 @@ func init() {
 				return nil, stBlocked
 			}
 			m.locked = true
+			e.hbAcquire(m)
 			return done(nil)
 		},
 		"(*sync.Mutex).TryLock": func(e *Exec, fr *Frame, fn *ssa.Function, a []Value) (Value, int) {
@@ -490,6 +499,7 @@ func init() {
 			if !m.locked {
 				e.goPanic("sync: unlock of unlocked mutex")
 			}
+			e.hbRelease(m)
 			m.locked = false
 			return done(nil)
 		},
@@ -501,6 +511,7 @@ func init() {
 				return nil, stBlocked
 			}
 			m.locked = true
+			e.hbAcquire(m)
 			return done(nil)
 		},
 		"(*sync.RWMutex).Unlock": func(e *Exec, fr *Frame, fn *ssa.Function, a []Value) (Value, int) {
@@ -508,6 +519,7 @@ func init() {
 			if !m.locked {
 				e.goPanic("sync: Unlock of unlocked RWMutex")
 			}
+			e.hbRelease(m)
 			m.locked = false
 			return done(nil)
 		},
@@ -519,6 +531,7 @@ func init() {
 				return nil, stBlocked
 			}
 			m.readers++
+			e.hbAcquire(m)
 			return done(nil)
 		},
 		"(*sync.RWMutex).RUnlock": func(e *Exec, fr *Frame, fn *ssa.Function, a []Value) (Value, int) {
@@ -526,6 +539,7 @@ func init() {
 			if m.readers <= 0 {
 				e.goPanic("sync: RUnlock of unlocked RWMutex")
 			}
+			e.hbRelease(m)
 			m.readers--
 			return done(nil)
 		},
@@ -548,6 +562,7 @@ func init() {
 			if p == nil || *p <= 0 {
 				e.goPanic("sync: negative WaitGroup counter")
 			}
+			e.hbRelease(c)
 			*p--
 			return done(nil)
 		},
@@ -555,6 +570,7 @@ func init() {
 			c := ptrCell(e, a[0])
 			p := e.wgs[c]
 			if p == nil || *p == 0 {
+				e.hbAcquire(c)
 				return done(nil)
 			}
 			e.cur.blocked = func() bool { return *p == 0 }
@@ -579,26 +595,35 @@ func init() {
 	for _, ty := range []string{"Int32", "Int64", "Uint32", "Uint64", "Uintptr"} {
 		ty := ty
 		intrinsics["sync/atomic.Load"+ty] = func(e *Exec, fr *Frame, fn *ssa.Function, a []Value) (Value, int) {
+			e.hbAcquire(ptrCell(e, a[0]))
 			return done(e.load(ptrCell(e, a[0])))
 		}
 		intrinsics["sync/atomic.Store"+ty] = func(e *Exec, fr *Frame, fn *ssa.Function, a []Value) (Value, int) {
+			e.hbAcquire(ptrCell(e, a[0]))
+			e.hbRelease(ptrCell(e, a[0]))
 			e.store(ptrCell(e, a[0]), a[1])
 			return done(nil)
 		}
 		intrinsics["sync/atomic.Add"+ty] = func(e *Exec, fr *Frame, fn *ssa.Function, a []Value) (Value, int) {
 			c := ptrCell(e, a[0])
+			e.hbAcquire(c)
+			e.hbRelease(c)
 			nv := BinBV(OpAdd, e.load(c).(*Term), termArg(a[1]))
 			e.store(c, nv)
 			return done(nv)
 		}
 		intrinsics["sync/atomic.Swap"+ty] = func(e *Exec, fr *Frame, fn *ssa.Function, a []Value) (Value, int) {
 			c := ptrCell(e, a[0])
+			e.hbAcquire(c)
+			e.hbRelease(c)
 			old := e.load(c)
 			e.store(c, a[1])
 			return done(old)
 		}
 		intrinsics["sync/atomic.CompareAndSwap"+ty] = func(e *Exec, fr *Frame, fn *ssa.Function, a []Value) (Value, int) {
 			c := ptrCell(e, a[0])
+			e.hbAcquire(c)
+			e.hbRelease(c)
 			if e.branch(Eq(e.load(c).(*Term), termArg(a[1]))) {
 				e.store(c, a[2])
 				return done(tTrue)
@@ -613,4 +638,15 @@ func init() {
 		e.store(ptrCell(e, a[0]), a[1])
 		return done(nil)
 	}
+}
+
+// hbKey: the identity a model passes to v.HBRelease / v.HBAcquire (a pointer: its cell).
+func hbKey(v Value) any {
+	if iv, ok := v.(IfaceVal); ok {
+		v = iv.V
+	}
+	if p, ok := v.(Ptr); ok {
+		return p.C
+	}
+	return "global"
 }
